@@ -544,7 +544,7 @@ prop(
               ("share_mapping_widths", 3), ("share_mapping_points_exact", 1000), ("ctor_reject_as_documented", 100),
               ("ctor_accept_as_documented", 40), ("hist_eps_reject_as_documented", 5), ("hist_eps_accept_as_documented", 2),
               ("dummy_rows_consistent_and_value_free", 1000), ("padding_shapes", 10), ("noise_shapes", 10),
-              ("buckets_total_equals_exact_plus_three_draws", 500), ("per_pass_noise_negative_seen", 10), ("chi2_runs", 4), ("three_pass_cases_every_helper_left_out_once", 8)],
+              ("buckets_total_equals_exact_plus_three_draws", 500), ("per_pass_noise_negative_seen", 10), ("chi2_runs", 4), ("three_pass_cases_every_helper_left_out_once", 8), ("padded_runs_with_a_shard_without_rows", 2)],
 )
 
 prop(
